@@ -485,7 +485,13 @@ class Builder:
         self._mem_mgr.remove_active_register(loop_register)
         self._mem_mgr.remove_active_register(qubit_reg)
         self._mem_mgr.remove_active_register(bell_state_reg)
-        return len(pair_qubits) > 0 and not any(q.active for q in pair_qubits)
+        consumed = len(pair_qubits) > 0 and not any(q.active for q in pair_qubits)
+        # The qubit handed to the post routine only stands for "the qubit of the
+        # current pair": it must not stay in the list of active qubits after the loop
+        # (its non-constant ID cannot be compared with the IDs of real qubits).
+        for q in pair_qubits:
+            q.active = False
+        return consumed
 
     def _add_wait_for_ent_info_cmd(
         self, ent_results_array: Array, pair: operand.Register
@@ -638,6 +644,12 @@ class Builder:
         if body_qubit is not None and not body_qubit.active:
             for ent_qubit in ent_qubits:
                 ent_qubit.active = False
+        # The qubit handed to the body only stands for "the qubit of the current pair"
+        # (its ID is an entry of the qubit IDs array). It means nothing outside the
+        # block, so it must not stay in the list of active qubits, where its
+        # non-constant ID cannot be compared with the IDs of real qubits.
+        if body_qubit is not None:
+            body_qubit.active = False
 
     def _assert_epr_args(
         self,
